@@ -101,7 +101,9 @@ impl Counter {
     /// Decrement counter by 1 and return true if crossing limit.
     #[inline(always)]
     pub(crate) fn dec(&self) -> bool {
-        self.counter.fetch_sub(1, Ordering::Relaxed) == self.limit
+        // The counter starts at 1, so a worker at its limit holds `limit + 1`: that is the value
+        // `inc` marks the worker unavailable at, and leaving it must wake the accept thread.
+        self.counter.fetch_sub(1, Ordering::Relaxed) == self.limit + 1
     }
 
     pub(crate) fn total(&self) -> usize {
